@@ -348,6 +348,11 @@ class Result(object):
         return path
 
     def finish(self):
+        if self.level == 'proof' and not self.coverage.get('obligations'):
+            # no property theorem is claimed (yet): the run is an exploration, and says so
+            self.level = 'exploration'
+            self.coverage.pop('obligations', None)
+            self.coverage.pop('discharged', None)
         ev = {
             'property_id': self.pid, 'tier': self.tier, 'seed': SEED, 'level': self.level,
             'coverage': self.coverage, 'assumptions': self.assumptions,
